@@ -111,18 +111,31 @@ func execRetain(f []string) vlib.Res {
 			name, qt = rand0x20(r, fmt.Sprintf("h%d.wild.%s", r.Intn(3), viewZone)), dns.TypeA
 		case "sh":
 			name = "shared1-ok.z.c10."
+		case "big":
+			name, qt = bigName(retainSeq%1000, i, vlib.Pick(r, []int{58, 60, 70})), dns.TypeA
+		case "ck", "lie":
+			// fixed-width names: a short body's question ends exactly where a longer body's OPT began
+			name = fmt.Sprintf("rt%03d-c%d-s%03d-ok.z.c10.", retainSeq%1000, c, i)
 		}
 		m := new(dns.Msg)
 		m.SetQuestion(name, qt)
 		m.Id = uint16(c)<<10 | uint16(i)
 		m.SetEdns0(1232, false)
-		if i%3 == 1 {
+		if i%3 == 1 || kind == "ck" {
 			o := m.IsEdns0()
 			o.Option = append(o.Option, &dns.EDNS0_COOKIE{Code: dns.EDNS0COOKIE, Cookie: clientCookie(m.Id)})
 		}
 		raw, _ := m.Pack()
+		if kind == "lie" {
+			// a body whose ARCOUNT promises an additional record it does not carry
+			m = new(dns.Msg)
+			m.SetQuestion(name, qt)
+			m.Id = uint16(c)<<10 | uint16(i)
+			raw, _ = m.Pack()
+			raw[11] = 1
+		}
 		k := &kept{req: m, raw: raw, kind: kind}
-		if r.Chance(1, 4) {
+		if r.Chance(1, 4) || kind == "ck" || kind == "lie" {
 			// the whole real DoH exchange (packs right after the serve)
 			rec := httptest.NewRecorder()
 			hr := httptest.NewRequest(http.MethodPost, "/dns-query", bytes.NewReader(raw))
